@@ -199,6 +199,12 @@ func pubWalk(t *Term, inh string, ro bool, pub map[int]bool) {
 				case "UnsafeString", "UnsafeBytes", "Write", "WriteString":
 					mark(tokIDs(op.B), own == "safe")
 				}
+				if op.O == "SafeInt" || op.O == "SafeUint" || op.O == "SafeFloat" {
+					for _, x := range op.Ts { // the number is emitted through a safe method: public unless an Unsafe() encloses it
+						pub[-x.ID] = own != "unsafe"
+					}
+					continue
+				}
 				for _, x := range op.Ts { // Print/Printf operands, panic payloads: printed under the same declaration
 					pubWalk(x, own, false, pub)
 				}
